@@ -539,7 +539,7 @@ func (p *parser) parseInputObjectTypeExtension(comment *CommentGroup) *Definitio
 	def.AfterDescriptionComment = comment
 	def.Kind = InputObject
 	def.Name = p.parseName()
-	def.Directives = p.parseDirectives(false)
+	def.Directives = p.parseDirectives(true)
 	def.Fields, def.EndOfDefinitionComment = p.parseInputFieldsDefinition()
 	if len(def.Directives) == 0 && len(def.Fields) == 0 {
 		p.unexpectedError()
